@@ -246,3 +246,33 @@ package py
 //@   trusted
 //@   modifies *
 //@   ensures one: (code == nil) != (err == nil)
+
+// ---- attribute lookup along the MRO (C16) ----
+
+//@ spec mroOK(t *Type) bool = forall k in [0, len(t.Mro)): is(t.Mro[k], *Type)
+//@ spec definesAt(t *Type, k int, name string) bool = has(t.Mro[k].(*Type).Dict, name)
+
+//@ func (*Type).Lookup(t, name) (res)
+//@   requires mro: mroOK(t)
+//@   pure
+//@   ensures found: forall k in [0, len(t.Mro)): definesAt(t, k, name) && (forall j in [0, k): !definesAt(t, j, name)) ==> res == t.Mro[k].(*Type).Dict[name]
+//@   ensures none: (forall k in [0, len(t.Mro)): !definesAt(t, k, name)) ==> res == nil
+//@   loop 1 (rangeindex)
+//@     invariant rng: 0 - 1 <= rangeindex && rangeindex < len(t.Mro)
+//@     invariant nodef: forall j in [0, rangeindex + 1): !definesAt(t, j, name)
+//@     invariant resnil: res == nil
+
+//@ func (*Type).NativeGetAttrOrNil(t, name) (res)
+//@   requires mro: mroOK(t)
+//@   pure
+//@   ensures own: has(t.Dict, name) ==> res == t.Dict[name]
+//@   ensures inherited: !has(t.Dict, name) ==> (forall k in [0, len(t.Mro)): definesAt(t, k, name) && (forall j in [0, k): !definesAt(t, j, name)) ==> res == t.Mro[k].(*Type).Dict[name])
+//@   ensures none: !has(t.Dict, name) && (forall k in [0, len(t.Mro)): !definesAt(t, k, name)) ==> res == nil
+
+//@ func (*Type).IsSubtype(a, b) (r)
+//@   requires mro: mroOK(a)
+//@   pure
+//@   ensures mro: len(a.Mro) != 0 ==> (r <==> (exists k in [0, len(a.Mro)): a.Mro[k].(*Type) == b))
+//@   loop 1 (rangeindex)
+//@     invariant rng: 0 - 1 <= rangeindex && rangeindex < len(a.Mro)
+//@     invariant notyet: forall j in [0, rangeindex + 1): a.Mro[j].(*Type) != b
